@@ -2781,6 +2781,12 @@ func (b *B) fullScanFrom(rule, construct, where string, fc *FC, idx, n *RF, maxF
 			}
 		}
 	}
+	// (counting up from 0 by ones to a length, `idx != n` stops at the same place as `idx < n`)
+	if na := n.SingleAtom(); !b.rotated && na != nil && na.Name == "len" && idx.Subst(map[AtomID]*RF{kat.ID: ki}).Equal(s.Int(0)) {
+		if cond.Equal(s.Cmp("!=", idx, n)) || cond.Equal(s.Cmp("!=", n, idx)) {
+			cond = want
+		}
+	}
 	if !(cond.Equal(want) || b.X.EquivByCases(cond, want, 0) || (len(fc.Assume) > 0 && b.X.EquivByCasesUnder(cond, want, fc.Assume))) {
 		b.R.Fail(rule, construct, where, "the loop runs while "+clip(cond.String(), 120)+", not while index < "+clip(n.String(), 60)+": not every element is visited")
 		return false
